@@ -53,8 +53,10 @@ OPS = [
     ("m07", "", "", "{ me { username reviews { body } } topProducts { name reviews { body } } }"),
     ("m08", "", "", "{ me { username history { __typename ... on Purchase { wallet { amount } product { upc name } } ... on Sale { rating product { upc price } } } } }"),
     ("m19", "", "", "{ me { username reviews { body product { name } } } topProducts { name price reviews { author { username } } } cat { name } }"),
+    # topProducts is empty: the batch entry of the MultiEntityFetch is excluded (@include false), only the single-origin entry is asked
+    ("m25", "", "", "{ me { username reviews { body } } topProducts(first: 0) { name reviews { body } } }"),
 ]
-MULTI = {"m07", "m08", "m19"}
+MULTI = {"m07", "m08", "m19", "m25"}
 
 
 def op_dict(o):
